@@ -12,7 +12,7 @@ def plan(tier, seed):
     hs = [("h_filter_val_int", 40), ("h_filter_val_str", t), ("h_filter_in_int", 40), ("h_filter_not_in_int", 40), ("h_filter_not_in_int_rest", 40),
           ("h_stats_not_in_clause_rest", t),
           ("h_filter_in_str", t), ("h_stats_clause", t), ("h_stats_two_clauses", t), ("h_stats_b_without_bounds", t), ("h_stats_in_clause", t),
-          ("h_stats_not_in_clause", t), ("h_cats_clause", t), ("h_cats_two_clauses", t), ("h_cats_in_clause", t), ("h_cats_label_typing", t), ("h_cats_bool_label", t), ("h_cats_in_text", t), ("h_cats_same_column", t), ("h_unknown_filter_column", t),
+          ("h_stats_not_in_clause", t), ("h_cats_clause", t), ("h_cats_two_clauses", t), ("h_cats_in_clause", t), ("h_cats_label_typing", t), ("h_cats_bool_label", t), ("h_cats_in_text", t), ("h_cats_int_label_other_kind", t), ("h_cats_same_column", t), ("h_unknown_filter_column", t),
           ("h_row_groups_and", 120 if tier == "quick" else 400), ("h_row_groups_or2", 120 if tier == "quick" else 400),
           ("h_row_groups_or3", 160 if tier == "quick" else 600),
           ("h_row_groups_composition", 160 if tier == "quick" else 600)]
@@ -31,10 +31,11 @@ def plan(tier, seed):
         bounds="1-2 columns, AND groups of <=2 clauses, OR of <=2 groups, 'in' lists of <=3 ints / <=2 one-char "
                "strings, string bounds of length <=2; integers unbounded; 2 row groups for order",
         outside="float/NaN and datetime bounds; decoding of statistics bytes (read_plain/convert are stubbed to 'the "
-                "bound'); val_to_num typing of partition text (C08); cross-type comparisons",
+                "bound'); val_to_num typing of partition text (C08); cross-type comparisons other than float constant vs integer partition label",
         stubs=["api.np -> {searchsorted: bisect contract, ndarray: never matches}",
                "api.ensure_bytes/encoding.read_plain/converted_types.convert -> identity on a Token holding the bound",
                "api.ex_from_sep -> object returning the (key, value) pairs of a shim path; api.val_to_num -> identity",
+               "h_cats_int_label_other_kind: real val_to_num / val_from_meta with numpy's int64 cast stubbed by its contract (truncation toward zero, asserted in the replay); label within +-10^9, constant n/2 within +-10^9, kept in integer arithmetic (class Half, registered as numbers.Real)",
                "row groups / statistics are real compiled ThriftObjects holding symbolic values"],
         assumptions=SHIM_ASSUMPTIONS + ["a NULL cell satisfies no clause (weakest reading of the statement)"])
     return jobs, extra
